@@ -23,14 +23,18 @@ def grids(ctx, rng):
                     dt = abs(tf - t0) / rng.choice([4, 7, 12])
                     o = de.OdeSystem(lambda t, y: np.array([y[1], -y[0]]), y0=np.array([1.0, 0.0]), t=(t0, tf), dt=dt, dense_output=dense, rtol=1e-6, atol=1e-8)
                     o.set_method(getattr(I, name))
+                    # a non-dense run that monitors an event keeps step interpolants of its own: lookups must still use the samples
+                    evs = [lambda t, y, **kw: y[0] - 0.3] if (not dense and rng.random() < 0.5) else None
+                    if evs is not None:
+                        ctx.count("grid:plain-run-with-events")
                     if cont == "against-span":
                         # the run goes the other way than the span given to the constructor (in two calls)
-                        o.integrate(t0 - (tf - t0) * 0.3)
-                        o.integrate(t0 - (tf - t0) * 0.8)
+                        o.integrate(t0 - (tf - t0) * 0.3, events=evs)
+                        o.integrate(t0 - (tf - t0) * 0.8, events=evs)
                     else:
                         if cont:
-                            o.integrate(t0 + (tf - t0) * 0.4)
-                        o.integrate()
+                            o.integrate(t0 + (tf - t0) * 0.4, events=evs)
+                        o.integrate(events=evs)
                     out.append((name, t0, tf, dense, cont, o))
     return out
 
@@ -47,7 +51,8 @@ def run(ctx):
             for conv, label in ((int, "int"), (np.int64, "np.int64")):
                 try:
                     r = o[conv(i)]
-                    got = int(np.where(t == r.t)[0][0]) if np.ndim(r.t) == 0 else None
+                    hit0 = np.where(t == r.t)[0] if np.ndim(r.t) == 0 else []
+                    got = int(hit0[0]) if len(hit0) else None
                     impl_res = str(got)
                 except IndexError:
                     impl_res = "index-error"
@@ -81,7 +86,13 @@ def run(ctx):
                 ctx.oracle("nearest-sample", got <= best + 4 * np.spacing(max(1.0, abs(qv))), inp,
                            what="a[%r] returned the sample at %r (distance %.3g); the nearest recorded sample is at distance %.3g" % (qv, float(r.t), got, best))
                 lines.append("lookup near %s %s" % (fbits(qv), flist(t)))
-                checks.append(("nearest", str(int(np.where(t == r.t)[0][0])), inp, None))
+                hit = np.where(t == r.t)[0]
+                if len(hit) == 0:
+                    ctx.oracle("nearest-sample", False, dict(inp, returned_time=float(r.t)), key="lookup-returns-no-recorded-sample",
+                               what="a[%r] on a run without dense output returned t=%r, which is not a recorded sample" % (qv, float(r.t)))
+                    lines.pop()
+                    continue
+                checks.append(("nearest", str(int(hit[0])), inp, None))
             ctx.nontrivial((name, t0, tf, dense, cont, qv))
         # slices
         whole = o[float(t[0]):float(t[-1])]
